@@ -91,13 +91,14 @@ type summary struct {
 }
 
 type found struct {
-	v    sim.Violation
-	run  uint64
-	prog *sim.Program
-	race *sim.RaceReport
-	bin  string
-	nw   int
-	base uint64
+	v     sim.Violation
+	run   uint64
+	prog  *sim.Program
+	race  *sim.RaceReport
+	bin   string
+	nw    int
+	base  uint64
+	focus []string
 }
 
 var (
@@ -148,9 +149,16 @@ func main() {
 	var trouble []string
 
 	epochKeys := map[string]map[uint64]string{} // label -> run -> joined epoch digests
+	nwAll := nw
 	runBatch := func(bin string, total int, base uint64, race bool, label string, extra ...string) {
 		if total <= 0 {
 			return
+		}
+		nw := nwAll
+		if strings.HasPrefix(label, "focus") && nw > 4 {
+			// state that accumulates over the life-time of a process (caches
+			// with a budget, tables that grow) needs long-lived processes
+			nw = 4
 		}
 		total = int(float64(total) * *scale)
 		per := (total + nw - 1) / nw
@@ -194,7 +202,15 @@ func main() {
 							continue
 						}
 						for _, v := range l.Violations {
-							viols = append(viols, found{v: v, run: l.Run, prog: l.Program, bin: bin, nw: nw, base: base})
+							var fk []string
+							if strings.HasPrefix(label, "focus") {
+								for i, a := range extra {
+									if a == "-focus" && i+1 < len(extra) {
+										fk = strings.Split(extra[i+1], ",")
+									}
+								}
+							}
+							viols = append(viols, found{v: v, run: l.Run, prog: l.Program, bin: bin, nw: nw, base: base, focus: fk})
 						}
 					}
 					if s != nil {
@@ -484,7 +500,7 @@ func writeReplay(f found, tree string) string {
 		// earlier runs of the same worker. Record those runs as warm-up.
 		w := f.run % uint64(f.nw)
 		base := f.base
-		rf.Warmup = &sim.Warmup{Profile: f.prog.Profile, Seed: seed, From: base + (f.run-base)%uint64(f.nw), Stride: uint64(f.nw), Count: int((f.run - base) / uint64(f.nw))}
+		rf.Warmup = &sim.Warmup{Profile: f.prog.Profile, Seed: seed, From: base + (f.run-base)%uint64(f.nw), Stride: uint64(f.nw), Count: int((f.run - base) / uint64(f.nw)), Focus: f.focus}
 		_ = w
 		rf.Notes = append(rf.Notes, "the violation needs the process history: the replay first re-executes the runs the worker had executed before")
 		b, _ := json.MarshalIndent(&rf, "", " ")
